@@ -255,6 +255,7 @@ def run(R):
                     w.bits(SENT_BITS).ref(rc.RC('0110'))
                 cell = w.cell()
                 one_case(R, L, cls, name, cname, v, cell, sentinel)
+        toplevel_messages(R, L, mods, rng, quick, g)
         config_wrappers(R, L, mods, rng, quick, g)
         shard_hashes(R, L, mods, rng, quick, g)
         custom_block_types(R, L, mods, rng, quick, g)
@@ -270,6 +271,7 @@ def run(R):
     if R.nshards == 1:
         R.floor('mainnet_block_fields', 200)
     R.floor('config_wrapper_cases', 10)
+    R.floor('toplevel_message_cases', 20)
     if R.nshards == 1:
         R.floor('shard_hashes_cases', 20)
 
@@ -293,6 +295,9 @@ def one_case(R, L, cls, name, cname, v, cell, sentinel, deser=None, via=None):
         R.exc(o)
         R.violation(f'deserialize-raises-{(via + ":") if via else ""}{name}.{cname}-{type(o).__name__}', f'{via or name}.deserialize raised {o!r} on a valid {cname}', W)
         return
+    # what is left of the slice is recorded, then read to its end before the parsed object is looked at: the object must not depend on the slice any more
+    left_bits, left_refs = sl.bits.to01(), len(sl.refs) - sl.ref_offset
+    mon.call(lambda: (sl.skip_bits(sl.remaining_bits), [sl.load_ref() for _ in range(sl.remaining_refs)]))
     C = Cmp(R, L)
     try:
         C.obj('$', name, v, o)
@@ -304,11 +309,38 @@ def one_case(R, L, cls, name, cname, v, cell, sentinel, deser=None, via=None):
         R.violation(f'field-differs-{where}-{kind}', f'{name}.{cname}: field {path}: {msg}', W)
     if sentinel and not C.diffs:
         R.count('sentinel_checks')
-        left_bits = sl.bits.to01()
-        left_refs = len(sl.refs) - sl.ref_offset
         if left_bits != SENT_BITS or left_refs != 1:
             R.violation(f'consumed-wrong-amount-{name}.{cname}', f'{name}.{cname}: after parsing, {len(left_bits)} bits / {left_refs} refs remain instead of the 4 sentinel bits / 1 sentinel '
                         f'reference', W)
+
+
+def toplevel_messages(R, L, mods, rng, quick, g):
+    """message$_ ... = Message X read from the caller's own slice (inside the other types messages sit behind references): parse, read the slice to its end,
+    then compare the returned object with the encoded value"""
+    for k in range(40 if quick else 2000):
+        v = g.value(S.MSG)
+        try:
+            cell = T.cell_of(T.enc_message, v['msg'], *v['placement'])
+        except rc.RefError:
+            continue
+        W = {'type': 'Message', 'placement': list(v['placement']), 'boc': rc.encode_boc([cell])}
+        sl = bridge.to_lib(cell).begin_parse()
+        st, o = mon.call(mods['transaction'].MessageAny.deserialize, sl)
+        R.counters['oracle_evaluations'] += 1
+        R.count('toplevel_message_cases')
+        R.cover('constructors_covered', ('Message', f'{v["placement"][0]}-{v["placement"][1]}'))
+        R.case(mon.fp('msg', cell.hash))
+        if st == 'exc':
+            R.violation(f'deserialize-raises-Message-{type(o).__name__}', f'MessageAny.deserialize raised {o!r} on a valid message', W)
+            continue
+        left = (sl.remaining_bits, sl.remaining_refs)
+        mon.call(lambda: (sl.skip_bits(sl.remaining_bits), [sl.load_ref() for _ in range(sl.remaining_refs)]))
+        C = Cmp(R, L)
+        C.ctx.append('Message')
+        C.go('$', S.MSG, v, o)
+        R.count('fields_compared', C.fields)
+        for path, kind, msg, where in C.diffs[:3]:
+            R.violation(f'field-differs-{where}-{kind}', f'Message: {msg} (compared after the source slice was read to its end; {left} bits/refs were left after the parse)', W)
 
 
 # ------------------------------------------------------------------------------------------- configuration-parameter entry points of covered types
